@@ -2513,6 +2513,6 @@ Definition pinned_glue_defs : list (string * string) := [
 ].
 Lemma glue_defs_pinned : glue_defs = pinned_glue_defs.
 Proof. reflexivity. Qed.
-Definition pinned_tape_names : list string := ["__new__"; "keys"; "type_number"; "__getattr__"; "grade"; "__str__"; "binary_operator"; "unary_operator"; "gp"; "__mul__"; "sw"; "__rshift__"; "cp"; "acp"; "ip"; "__or__"; "sp"; "lc"; "rc"; "op"; "__xor__"; "rp"; "__and__"; "proj"; "__matmul__"; "add"; "__add__"; "__radd__"; "sub"; "__sub__"; "__rsub__"; "__rmul__"; "__rxor__"; "__truediv__"; "div"; "__pow__"; "inv"; "neg"; "__neg__"; "reverse"; "__invert__"; "involute"; "conjugate"; "sqrt"; "polarity"; "unpolarity"; "hodge"; "unhodge"; "normsq"; "outerexp"; "outersin"; "outercos"; "outertan"; "dual"; "undual"; "norm"; "normalized"].
+Definition pinned_tape_names : list string := ["__new__"; "keys"; "type_number"; "__getattr__"; "grade"; "__str__"; "__bool__"; "binary_operator"; "unary_operator"; "gp"; "__mul__"; "sw"; "__rshift__"; "cp"; "acp"; "ip"; "__or__"; "sp"; "lc"; "rc"; "op"; "__xor__"; "rp"; "__and__"; "proj"; "__matmul__"; "add"; "__add__"; "__radd__"; "sub"; "__sub__"; "__rsub__"; "__rmul__"; "__rxor__"; "__truediv__"; "div"; "__pow__"; "inv"; "neg"; "__neg__"; "reverse"; "__invert__"; "involute"; "conjugate"; "sqrt"; "polarity"; "unpolarity"; "hodge"; "unhodge"; "normsq"; "outerexp"; "outersin"; "outercos"; "outertan"; "dual"; "undual"; "norm"; "normalized"].
 Lemma tape_names_pinned : tape_names = pinned_tape_names.
 Proof. reflexivity. Qed.
